@@ -422,7 +422,30 @@ func runC02(ctx *core.Ctx) {
 				return
 			}
 			b, ok := ifi.Cond.(*ssa.BinOp)
-			if !ok || b.Op != token.EQL {
+			if !ok {
+				return
+			}
+			// set form: strings.IndexByte(" \t\r#", line[i]) >= 0 (or != -1, or ContainsRune)
+			if c, isC := b.X.(*ssa.Call); isC && (b.Op == token.GEQ || b.Op == token.NEQ) {
+				nm := ssax.CalleeName(&c.Call)
+				if (nm == "strings.IndexByte" || nm == "strings.IndexRune" || nm == "bytes.IndexByte") && len(c.Call.Args) == 2 {
+					set, isSet := ssax.ConstString(c.Call.Args[0])
+					kk, isK := ssax.ConstInt(b.Y)
+					if isSet && isK && ((b.Op == token.GEQ && kk == 0) || (b.Op == token.NEQ && kk == -1)) && isElemLoad(line, anyVal)(ssax.Strip(c.Call.Args[1])) &&
+						hasFact(g.FactsAtInstr(ifi), false, func(v ssa.Value) bool { ph, ok := v.(*ssa.Phi); return ok && ph.Type().String() == "bool" }) {
+						t := ifi.Block().Succs[0].Index
+						for _, sep := range []byte{' ', '\t', '#'} {
+							if strings.IndexByte(set, sep) >= 0 {
+								n++
+								targets[t] = append(targets[t], string(rune(sep)))
+								where[t] = append(where[t], ifi.Block().Index)
+							}
+						}
+					}
+				}
+				return
+			}
+			if b.Op != token.EQL {
 				return
 			}
 			k, ok := ssax.ConstInt(b.Y)
